@@ -47,6 +47,10 @@ enum OutputKind {
     SymlinkToExisting,
     /// the output path is the input file itself
     SameAsInput,
+    /// the output path exists and is not a regular file: the character device /dev/null
+    DevNull,
+    /// the output path exists and is not a regular file: a named pipe with a reader at the other end
+    Fifo,
 }
 
 #[derive(Clone, Debug)]
@@ -109,7 +113,7 @@ fn decode(tapes: &Tapes) -> Scenario {
     let parser_short = m.chance(128);
     let derive = if m.chance(150) { Some(m.pick(CLI_DERIVES).to_string()) } else { None };
     let sort = *m.pick(&[None, Some("unsorted"), Some("name")]);
-    let output = match m.weighted(&[12, 8, 6, 2, 2, 2, 1, 1, 1]) {
+    let output = match m.weighted(&[24, 16, 12, 4, 4, 4, 2, 2, 2, 1, 2]) {
         0 => OutputKind::Stdout,
         1 => OutputKind::NewFile,
         2 => OutputKind::ExistingFile,
@@ -118,7 +122,9 @@ fn decode(tapes: &Tapes) -> Scenario {
         5 => OutputKind::BelowRegularFile,
         6 => OutputKind::DanglingSymlink,
         7 => OutputKind::SymlinkToExisting,
-        _ => OutputKind::SameAsInput,
+        8 => OutputKind::SameAsInput,
+        9 => OutputKind::DevNull,
+        _ => OutputKind::Fifo,
     };
     let args_first = m.chance(128);
     let long_existing = m.chance(128);
@@ -135,6 +141,10 @@ fn decode(tapes: &Tapes) -> Scenario {
         if output == OutputKind::SameAsInput {
             output = OutputKind::NewFile;
         }
+    }
+    if matches!(output, OutputKind::DevNull | OutputKind::Fifo) {
+        // nothing to compare a second run with
+        rerun = false;
     }
     let mut t = Tape::new(&tapes.a);
     let mut dom = Domain::general();
@@ -266,6 +276,13 @@ fn boundary_scenarios() -> Vec<(String, Scenario)> {
             }
         }
     }
+    // output that is not a regular file: /dev/null and a named pipe, small and beyond the pipe capacity
+    for n in [1usize, 2500] {
+        for o in [OutputKind::DevNull, OutputKind::Fifo] {
+            let label = format!("{} text children, output into {:?}", n, o);
+            out.push((label, plain_scenario(doc_for(n, 1).into_bytes(), o)));
+        }
+    }
     // input that is not a regular file (a pipe: reported size 0), of sizes below and above the pipe capacity
     for n in [1usize, 50, 4096, 65536, 70000, 200_000] {
         let mut doc = String::from("<a k=\"v\"><b>");
@@ -337,6 +354,15 @@ fn run(s: &Scenario, dir: &Path) -> Result<(), String> {
             std::os::unix::fs::symlink(&target, &link).map_err(|e| format!("INFRA symlink: {}", e))?;
             Some(link)
         }
+        OutputKind::DevNull => Some(PathBuf::from("/dev/null")),
+        OutputKind::Fifo => {
+            let p = dir.join(out_name);
+            let c = std::ffi::CString::new(std::os::unix::ffi::OsStrExt::as_bytes(p.as_os_str())).map_err(|e| format!("INFRA: {}", e))?;
+            if unsafe { libc::mkfifo(c.as_ptr(), 0o600) } != 0 {
+                return Err(format!("INFRA mkfifo: {}", std::io::Error::last_os_error()));
+            }
+            Some(p)
+        }
         OutputKind::SameAsInput if matches!(s.input_kind, InputKind::Pipe) => Some(dir.join(out_name)),
         OutputKind::SameAsInput => Some(input_path.clone()),
     };
@@ -378,22 +404,60 @@ fn run(s: &Scenario, dir: &Path) -> Result<(), String> {
         cmd.args(&pos_args).args(&opt_args);
     }
     cmd.env_remove("RUST_LOG").current_dir(dir);
-    let out = if matches!(s.input_kind, InputKind::Pipe) {
-        use std::io::Write;
+    // what a reader at the other end of a named pipe received
+    let mut fifo_bytes: Vec<u8> = Vec::new();
+    let out = if matches!(s.input_kind, InputKind::Pipe) || s.output == OutputKind::Fifo {
+        use std::io::{Read, Write};
+        // the read end is opened (non-blocking) before the program starts, so that its open() for writing returns at once
+        let mut fifo_reader = match (&s.output, &out_path) {
+            (OutputKind::Fifo, Some(p)) => {
+                use std::os::unix::fs::OpenOptionsExt;
+                Some(std::fs::OpenOptions::new().read(true).custom_flags(libc::O_NONBLOCK).open(p).map_err(|e| format!("INFRA open fifo: {}", e))?)
+            }
+            _ => None,
+        };
         let mut child = cmd
-            .stdin(std::process::Stdio::piped())
+            .stdin(if matches!(s.input_kind, InputKind::Pipe) { std::process::Stdio::piped() } else { std::process::Stdio::null() })
             .stdout(std::process::Stdio::piped())
             .stderr(std::process::Stdio::piped())
             .spawn()
             .map_err(|e| format!("INFRA cannot run {}: {}", cli_path().display(), e))?;
-        let mut stdin = child.stdin.take().ok_or("INFRA no stdin handle")?;
-        let data = s.input.clone();
-        // a program that fails early closes the pipe: the write error is expected then
-        let writer = std::thread::spawn(move || {
-            let _ = stdin.write_all(&data);
+        let writer = child.stdin.take().map(|mut stdin| {
+            let data = s.input.clone();
+            // a program that fails early closes the pipe: the write error is expected then
+            std::thread::spawn(move || {
+                let _ = stdin.write_all(&data);
+            })
         });
-        let out = child.wait_with_output().map_err(|e| format!("INFRA wait: {}", e))?;
-        let _ = writer.join();
+        let waiter = std::thread::spawn(move || child.wait_with_output());
+        if let Some(r) = fifo_reader.as_mut() {
+            let started = std::time::Instant::now();
+            let mut buf = [0u8; 65536];
+            let mut exited_seen = false;
+            loop {
+                match r.read(&mut buf) {
+                    Ok(0) | Err(_) => {
+                        // no data right now (EAGAIN) or no writer (0): done once the program has gone and the pipe is drained
+                        if exited_seen {
+                            break;
+                        }
+                        if waiter.is_finished() {
+                            exited_seen = true;
+                            continue;
+                        }
+                        if started.elapsed().as_secs() > 60 {
+                            return Err("INFRA the program did not finish within 60 s while writing into a named pipe".into());
+                        }
+                        std::thread::sleep(std::time::Duration::from_millis(1));
+                    }
+                    Ok(n) => fifo_bytes.extend_from_slice(&buf[..n]),
+                }
+            }
+        }
+        let out = waiter.join().map_err(|_| "INFRA wait thread panicked".to_string())?.map_err(|e| format!("INFRA wait: {}", e))?;
+        if let Some(w) = writer {
+            let _ = w.join();
+        }
         out
     } else {
         cmd.output().map_err(|e| format!("INFRA cannot run {}: {}", cli_path().display(), e))?
@@ -403,7 +467,14 @@ fn run(s: &Scenario, dir: &Path) -> Result<(), String> {
     let input_ok = !matches!(s.input_kind, InputKind::Missing | InputKind::Directory) && lib.is_ok();
     let output_ok = matches!(
         s.output,
-        OutputKind::Stdout | OutputKind::NewFile | OutputKind::ExistingFile | OutputKind::DanglingSymlink | OutputKind::SymlinkToExisting | OutputKind::SameAsInput
+        OutputKind::Stdout
+            | OutputKind::NewFile
+            | OutputKind::ExistingFile
+            | OutputKind::DanglingSymlink
+            | OutputKind::SymlinkToExisting
+            | OutputKind::SameAsInput
+            | OutputKind::DevNull
+            | OutputKind::Fifo
     );
     let stdout = String::from_utf8_lossy(&out.stdout).to_string();
     let stderr = String::from_utf8_lossy(&out.stderr).to_string();
@@ -437,7 +508,12 @@ fn run(s: &Scenario, dir: &Path) -> Result<(), String> {
                 if !stdout.is_empty() {
                     return Err(format!("output file named but stdout is not empty: `{}`", stdout));
                 }
-                let got = std::fs::read(p).map_err(|e| format!("output file unreadable: {}", e))?;
+                // a device swallows the bytes; a named pipe hands them to its reader
+                let got = match s.output {
+                    OutputKind::DevNull => expected.as_bytes().to_vec(),
+                    OutputKind::Fifo => fifo_bytes.clone(),
+                    _ => std::fs::read(p).map_err(|e| format!("output file unreadable: {}", e))?,
+                };
                 if got != expected.as_bytes() {
                     return Err(format!("output file is not header + library rendering:\n--- expected\n{}\n--- got\n{}", expected, String::from_utf8_lossy(&got)));
                 }
@@ -513,6 +589,11 @@ fn run(s: &Scenario, dir: &Path) -> Result<(), String> {
                     let now = std::fs::read(dir.join(out_name)).map_err(|e| format!("existing output file vanished: {}", e))?;
                     if now != old {
                         return Err(format!("the input was at fault but the existing output file was modified (now {} bytes)", now.len()));
+                    }
+                }
+                OutputKind::Fifo => {
+                    if !fifo_bytes.is_empty() {
+                        return Err(format!("the input was at fault but {} bytes were written into the named pipe given as output", fifo_bytes.len()));
                     }
                 }
                 OutputKind::MissingDir => {
@@ -652,7 +733,7 @@ impl Property for C12 {
         Err(Failure::new(format!("no boundary scenario is labelled `{}`", label)))
     }
     fn rule(&self) -> String {
-        "output paths also as a symbolic link (dangling, or to an existing file: the path must hold the output afterwards, written through or replaced; link and target untouched when the input is at fault) and as the input file itself (overwritten, or refused cleanly); a fixed buffer-boundary family (inputs with a 2-, 3- or 4-byte character starting 0..len bytes before offsets 4096, 8192, 16384, 24576, 32768, 65536; inputs whose output has exactly 4096/8192/16384 bytes, one or two less, one more; stdout, new file, existing file); sampled: one process run of the freshly built CLI per case: input file in {generated valid document, byte-damaged UTF-8 document, non-UTF-8, missing, a directory, element-less, the path being a symbolic link to the file in about 1 of 9, a valid document read from a pipe (/dev/stdin, reported size 0; also 12 enumerated pipe inputs of 1 byte .. 200 KB)} x --parser/-p in {default, quick-xml-de, serde-xml-rs} x --derive=<string from a list incl. empty, leading dashes, unicode, newline, shell metacharacters> or default x --sort in {default, unsorted, name} x output in {stdout, new file, existing file (empty, short, 15 KB and thus longer than the new output, or garbage of exactly the new output's length), path in a missing directory, path that is a directory, path below a regular file}, options before or after the positional arguments, written as `--opt=value`, `--opt value` or `-o value`, file names plain or with blanks and non-ASCII characters. Four in ten successful file outputs are followed by a second run into the same file with the other sort order and a permuted derive list (often the same output length). Oracle: success = exit 0 and stdout (plus newline) or file bytes equal header + in-process library rendering with the mapped options, stdout empty when a file is named; failure = exit 1, empty stdout, non-empty stderr, named output untouched when the input was at fault. Non-trivial = any non-default option, an output file or a fault; distinct by hash of input bytes and arguments.".into()
+        "output paths also as a symbolic link (dangling, or to an existing file: the path must hold the output afterwards, written through or replaced; link and target untouched when the input is at fault) and as the input file itself (overwritten, or refused cleanly); a fixed buffer-boundary family (inputs with a 2-, 3- or 4-byte character starting 0..len bytes before offsets 4096, 8192, 16384, 24576, 32768, 65536; inputs whose output has exactly 4096/8192/16384 bytes, one or two less, one more; stdout, new file, existing file); sampled: one process run of the freshly built CLI per case: input file in {generated valid document, byte-damaged UTF-8 document, non-UTF-8, missing, a directory, element-less, the path being a symbolic link to the file in about 1 of 9, a valid document read from a pipe (/dev/stdin, reported size 0; also 12 enumerated pipe inputs of 1 byte .. 200 KB)} x --parser/-p in {default, quick-xml-de, serde-xml-rs} x --derive=<string from a list incl. empty, leading dashes, unicode, newline, shell metacharacters> or default x --sort in {default, unsorted, name} x output in {stdout, new file, existing file (empty, short, 15 KB and thus longer than the new output, or garbage of exactly the new output's length), path in a missing directory, path that is a directory, path below a regular file, /dev/null, a named pipe with a reader (the reader must receive exactly the output, or nothing when the input is at fault)}, options before or after the positional arguments, written as `--opt=value`, `--opt value` or `-o value`, file names plain or with blanks and non-ASCII characters. Four in ten successful file outputs are followed by a second run into the same file with the other sort order and a permuted derive list (often the same output length). Oracle: success = exit 0 and stdout (plus newline) or file bytes equal header + in-process library rendering with the mapped options, stdout empty when a file is named; failure = exit 1, empty stdout, non-empty stderr, named output untouched when the input was at fault. Non-trivial = any non-default option, an output file or a fault; distinct by hash of input bytes and arguments.".into()
     }
     fn assumptions(&self) -> Vec<String> {
         vec![
